@@ -15,7 +15,8 @@
 
   Six defects of the originally pinned tree were repaired upstream of this file (findings/applied);
   each has a `…_repaired` regression theorem stating today's behaviour at the formerly failing
-  input.
+  input.  A seventh regression theorem (`mlsd_name_separators_repaired`) belongs to the MLSD name
+  defect found by C10 and repaired by ec30a14 (`_parse_facts` reads `facts SP pathname`).
 -/
 import FsModel.Parse
 import FsModel.FtpParse
@@ -333,7 +334,11 @@ example : parseLine 2026 (renderNt ⟨11, 2, 18, 14, 12, true, none, "images".to
     .ok (some ⟨"images".toList, true, none, some 1518358320, none, none, none,
       "11-02-18  02:12PM  <DIR> images".toList⟩) := by decide +kernel
 
-/-! ## MLSD / MLST -/
+/-! ## MLSD / MLST
+
+  An entry is `[ facts ] SP pathname` (RFC 3659 7.2): the line is cut at its FIRST space; the text
+  before it is the facts part (`fact;fact;…;`, no space anywhere), everything behind it is the
+  pathname, whatever it contains.  `renderMlsd facts name` = `k1=v1;k2=v2;…; name`. -/
 
 /-- **mlsd_total.**  `_parse_mlsx` never raises, whatever the server sent -/
 theorem mlsd_total (lines : List Str) : ∃ r, parseMlsx lines = .ok r := parseMlsx_total lines
@@ -353,12 +358,47 @@ theorem mlsd_time_repaired :
       .ok (some ⟨['f'], false, [("modify".toList, "20201301000000".toList)], 0, some none, none⟩) := by
   decide
 
-/-- `_parse_facts` recovers name and facts from `k1=v1;k2=v2;…; name`: keys in any case and any
-    order come back lower-cased, in order -/
+/-- regression (ec30a14; formerly the whole line was split at every `;`, each piece at `=`, and
+    stripped: the first entry was listed as `a` with a made-up fact `b=c`, the second as `x`):
+    names containing `;`, `=` and outer blanks are listed as they are -/
+theorem mlsd_name_separators_repaired :
+    parseMlsx ["type=file;size=3; a; b=c".toList, "type=dir;  x \r\n".toList] =
+      .ok [⟨"a; b=c".toList, false, [("type".toList, "file".toList), ("size".toList, ['3'])], 3, none, none⟩,
+           ⟨" x ".toList, true, [("type".toList, "dir".toList)], 0, none, none⟩] := by decide
+
+/-- **mlsd_name_verbatim (facts level).**  `_parse_facts` on `k1=v1;…; name`, for EVERY text `name`:
+    the facts come back (keys in any case and any order lower-cased, in order) and the name is
+    `pathName` of everything behind the first space — never split, trimmed or case-changed -/
+theorem facts_roundtrip_any_name (facts : List (Str × Str)) (name : Str)
+    (hf : ∀ kv ∈ facts, WFFact kv) (hnd : (facts.map (fun kv => lower kv.1)).Nodup) :
+    parseFacts (renderMlsd facts name) = (pathName name, facts.map (fun kv => (lower kv.1, kv.2))) :=
+  parseFacts_render_any facts name hf hnd
+
+/-- whenever `pathName` yields a name it is `basename(pathname.rstrip("/"))` -/
+theorem path_name_is_basename (p n : Str) (h : pathName p = some n) :
+    n = basename (rstripSlash p) := pathName_some p n h
+
+/-- **exactness of `WFName`.**  A pathname is returned as the name, unchanged, iff it is not empty,
+    contains no `/` and is not `.` or `..` -/
+theorem name_verbatim_iff (name : Str) : pathName name = some name ↔ WFName name :=
+  pathName_self_iff name
+
+/-- `_parse_facts` recovers name and facts from `k1=v1;k2=v2;…; name` -/
 theorem facts_roundtrip (facts : List (Str × Str)) (name : Str) (hf : ∀ kv ∈ facts, WFFact kv)
     (hn : WFName name) (hnd : (facts.map (fun kv => lower kv.1)).Nodup) :
     parseFacts (renderMlsd facts name) = (some name, facts.map (fun kv => (lower kv.1, kv.2))) :=
   parseFacts_render facts name hf hn hnd
+
+/-- a text without a facts part — no space at all, or a non-empty text before the first space that
+    does not end with `;` — is a pathname as a whole and states no facts -/
+theorem facts_absent (l : Str) (h : noFactsPart l = true) : parseFacts l = (pathName l, []) :=
+  parseFacts_noFacts l h
+
+theorem facts_absent_no_space (l : Str) (h : ' ' ∉ l) : parseFacts l = (pathName l, []) := by
+  apply parseFacts_noFacts
+  unfold noFactsPart
+  rw [partition_not_mem _ _ h]
+  rfl
 
 /-- `_parse_ftp_time` on `YYYYMMDDHHMMSS[.fff]` is the epoch of that UTC time -/
 theorem ftp_time_roundtrip (y m d h mi s : Nat) (frac : Str)
@@ -367,11 +407,13 @@ theorem ftp_time_roundtrip (y m d h mi s : Nat) (frac : Str)
     parseFtpTime (stamp y m d h mi s ++ frac) = .ok (some (epochOf y m d h mi s)) :=
   ftp_time_roundtrip_core y m d h mi s frac hy hm hd hh hmi hs
 
-/-- **mlsd_roundtrip.**  An MLSD line with well-formed facts (any order, any key case) whose type
-    is `dir` or `file` (or absent: `file`) yields exactly its name, type, facts, size
-    (`size`, else `sizd`, else 0) and times. -/
+/-- **mlsd_roundtrip.**  An MLSD line with well-formed facts (any order, any key case; `WFFact`)
+    whose type is `dir` or `file` (or absent: `file`) yields exactly its name, type, facts, size
+    (`size`, else `sizd`, else 0) and times — for every name that is `WFName` (not empty, no `/`,
+    not `.`/`..`) and does not end with CR / LF; the name may contain `;`, `=`, inner, leading and
+    trailing blanks and any other character. -/
 theorem mlsd_roundtrip (facts : List (Str × Str)) (name : Str)
-    (hf : ∀ kv ∈ facts, WFFact kv) (hne : facts ≠ []) (hn : WFName name)
+    (hf : ∀ kv ∈ facts, WFFact kv) (hne : facts ≠ []) (hn : WFName name) (heol : NoEol name)
     (hnd : (facts.map (fun kv => lower kv.1)).Nodup)
     (ty : Str) (hty : (dictGet kType (facts.map (fun kv => (lower kv.1, kv.2)))).getD kFile = ty)
     (htyok : ty = kDir ∨ ty = kFile)
@@ -381,7 +423,41 @@ theorem mlsd_roundtrip (facts : List (Str × Str)) (name : Str)
     (hcr : mlsdTime (facts.map (fun kv => (lower kv.1, kv.2))) kCreate = .ok cr) :
     parseMlsxLine (renderMlsd facts name) =
       .ok (some ⟨name, ty = kDir, facts.map (fun kv => (lower kv.1, kv.2)), sz, mo, cr⟩) :=
-  mlsd_roundtrip_core facts name hf hne hn hnd ty hty htyok sz hsz mo cr hmo hcr
+  mlsd_roundtrip_core facts name hf hne hn heol hnd ty hty htyok sz hsz mo cr hmo hcr
+
+/-- **mlsd_name_verbatim.**  For every rendered line `facts; SP text` — `text` arbitrary — an entry
+    that is listed carries the line's facts and the name `basename(text.rstrip("\r\n").rstrip("/"))`:
+    the bytes of the name are never split, trimmed or case-changed -/
+theorem mlsd_name_verbatim (facts : List (Str × Str)) (name : Str)
+    (hf : ∀ kv ∈ facts, WFFact kv) (hne : facts ≠ [])
+    (hnd : (facts.map (fun kv => lower kv.1)).Nodup)
+    (info : MlsdInfo) (h : parseMlsxLine (renderMlsd facts name) = .ok (some info)) :
+    info.name = basename (rstripSlash (rstripEol name)) ∧
+      info.facts = facts.map (fun kv => (lower kv.1, kv.2)) := by
+  have := mlsd_name_core facts name hf hne hnd info h
+  exact ⟨pathName_some _ _ this.1, this.2⟩
+
+/-- **exactness of the name hypotheses of `mlsd_roundtrip`.**  If the entry comes back under the
+    very name the line states, that name is `WFName` and does not end with CR / LF -/
+theorem mlsd_name_exact (facts : List (Str × Str)) (name : Str)
+    (hf : ∀ kv ∈ facts, WFFact kv) (hne : facts ≠ [])
+    (hnd : (facts.map (fun kv => lower kv.1)).Nodup)
+    (info : MlsdInfo) (h : parseMlsxLine (renderMlsd facts name) = .ok (some info))
+    (hname : info.name = name) : WFName name ∧ NoEol name :=
+  mlsd_name_exact_core facts name hf hne hnd info h hname
+
+/-- the MLST reply form — the entry preceded by one space — reads like the MLSD form -/
+theorem mlst_leading_space (l : Str) (h : Stops (fun c => c == ' ') l) :
+    parseMlsxLine (' ' :: l) = parseMlsxLine l := parseMlsxLine_lead_space l h
+
+/-- a line without facts, `SP name` (or the bare `name`), is a file of that name with size 0 —
+    provided the name itself cannot be read as `facts SP pathname` (`noFactsPart`: it has no
+    space, or the text before its first space is non-empty and does not end with `;`) -/
+theorem mlsd_nofacts_roundtrip (name : Str) (hn : WFName name) (heol : NoEol name)
+    (hnf : noFactsPart name = true) :
+    parseMlsxLine (' ' :: name) = .ok (some ⟨name, false, [], 0, none, none⟩) ∧
+    parseMlsxLine name = .ok (some ⟨name, false, [], 0, none, none⟩) :=
+  mlsd_nofacts_core name hn heol hnf
 
 /-- the size stated by a decimal `size` (or `sizd`) fact -/
 theorem mlsd_size_stated (F : List (Str × Str)) (sz : Str)
@@ -397,21 +473,86 @@ theorem mlsd_time_stated (F : List (Str × Str)) (k : Str) (y m d h mi s : Nat) 
     mlsdTime F k = .ok (some (some (epochOf y m d h mi s))) :=
   mlsdTime_stamp F k y m d h mi s frac hk hy hm hd hh hmi hs
 
-/-- `cdir`, `pdir`, `OS.unix=slink:…` and every other type are skipped -/
+/-- `cdir`, `pdir`, `OS.unix=slink:…` and every other type are skipped, whatever the name -/
 theorem mlsd_other_type_skipped (facts : List (Str × Str)) (name : Str)
-    (hf : ∀ kv ∈ facts, WFFact kv) (hne : facts ≠ []) (hn : WFName name)
+    (hf : ∀ kv ∈ facts, WFFact kv)
     (hnd : (facts.map (fun kv => lower kv.1)).Nodup)
     (ty : Str) (hty : dictGet kType (facts.map (fun kv => (lower kv.1, kv.2))) = some ty)
     (h1 : ty ≠ kDir) (h2 : ty ≠ kFile) :
     parseMlsxLine (renderMlsd facts name) = .ok none :=
-  mlsd_other_skipped facts name hf hne hn hnd ty hty h1 h2
+  mlsd_other_skipped facts name hf hnd ty hty h1 h2
 
 example : parseMlsxLine
     (renderMlsd [("Type".toList, "dir".toList), ("Modify".toList, stamp 2020 2 29 23 59 58),
-      ("sizd".toList, "4096".toList)] "my dir".toList) =
-    .ok (some ⟨"my dir".toList, true, [("type".toList, "dir".toList),
+      ("sizd".toList, "4096".toList)] " my; dir=1 ".toList) =
+    .ok (some ⟨" my; dir=1 ".toList, true, [("type".toList, "dir".toList),
       ("modify".toList, "20200229235958".toList), ("sizd".toList, "4096".toList)], 4096,
       some (some 1583020798), none⟩) := by decide +kernel
+
+/-- a value may contain `=` (RFC 3659: `value = *SCHAR`, SCHAR includes `=`); such a type is skipped -/
+example : parseFacts "Type=OS.unix=slink:/t;x=1; n".toList =
+    (some ['n'], [("type".toList, "OS.unix=slink:/t".toList), (['x'], ['1'])]) := by decide
+
+/-! ### what lies outside the hypotheses: one `decide`d point per excluded class, showing what
+    the code does with it (the same lines are run through the real parser by the harness,
+    `MLSD_EXCLUDED_POINTS`) -/
+
+/-- a name containing `/` is a pathname: its last component is listed (`a/b` → `b`, `d/` → `d`),
+    `/` alone gives no entry -/
+theorem name_slash_counterexample :
+    parseMlsxLine "type=file; a/b".toList =
+      .ok (some ⟨['b'], false, [("type".toList, "file".toList)], 0, none, none⟩) ∧
+    parseMlsxLine "type=dir; d/".toList =
+      .ok (some ⟨['d'], true, [("type".toList, "dir".toList)], 0, none, none⟩) ∧
+    parseMlsxLine "type=dir; /".toList = .ok none := by decide
+
+/-- the empty name, `.` and `..` give no entry -/
+theorem name_empty_dot_counterexample :
+    parseMlsxLine "type=file; ".toList = .ok none ∧
+    parseMlsxLine "type=dir; .".toList = .ok none ∧
+    parseMlsxLine "type=dir; ..".toList = .ok none ∧
+    parseMlsxLine "type=dir; ./".toList = .ok none := by decide
+
+/-- CR / LF at the end of a name belong to the line terminator (all of them), elsewhere they stay -/
+theorem name_eol_counterexample :
+    parseMlsxLine "type=file; a\r".toList =
+      .ok (some ⟨['a'], false, [("type".toList, "file".toList)], 0, none, none⟩) ∧
+    parseMlsxLine "type=file; a\n\r\n".toList =
+      .ok (some ⟨['a'], false, [("type".toList, "file".toList)], 0, none, none⟩) ∧
+    parseMlsxLine "type=file; a\nb \r\n".toList =
+      .ok (some ⟨"a\nb ".toList, false, [("type".toList, "file".toList)], 0, none, none⟩) := by decide
+
+/-- a space inside a fact (not legal per RFC 3659: `value = *SCHAR` has no SP) ends the facts part
+    there; that part does not end with `;`, so the whole line is taken for a pathname -/
+theorem fact_space_counterexample :
+    parseMlsxLine "type=dir;x=a b; n".toList =
+      .ok (some ⟨"type=dir;x=a b; n".toList, false, [], 0, none, none⟩) ∧
+    parseMlsxLine "type=dir;x=a; b; n".toList =
+      .ok (some ⟨"b; n".toList, true, [("type".toList, "dir".toList), (['x'], ['a'])], 0, none, none⟩) := by
+  decide
+
+/-- a `;` inside a value ends the fact; a piece without `=` is ignored -/
+theorem fact_semicolon_counterexample :
+    parseMlsxLine "x=a;b;type=dir; n".toList =
+      .ok (some ⟨['n'], true, [(['x'], ['a']), ("type".toList, "dir".toList)], 0, none, none⟩) := by
+  decide
+
+/-- outer white space other than SP around key or value is dropped; of two facts with the same
+    lower-cased key the later value wins (at the earlier position) -/
+theorem fact_strip_duplicate_counterexample :
+    parseFacts "\tK=\tv\t;Size=1;size=2; n".toList =
+      (some ['n'], [(['k'], ['v']), ("size".toList, ['2'])]) := by decide
+
+/-- without facts a name is ambiguous: a leading blank is taken for the separator, `a; b` for
+    facts `a;` (a piece without `=`: ignored) and the name `b` -/
+theorem nofacts_counterexample :
+    parseMlsxLine "  x".toList = .ok (some ⟨['x'], false, [], 0, none, none⟩) ∧
+    parseMlsxLine " a; b".toList = .ok (some ⟨['b'], false, [], 0, none, none⟩) ∧
+    parseMlsxLine " k=v; b".toList = .ok (some ⟨['b'], false, [(['k'], ['v'])], 0, none, none⟩) := by
+  decide
+
+example : noFactsPart "my file; v=2".toList = true ∧ noFactsPart "name".toList = true ∧
+    noFactsPart " x".toList = false ∧ noFactsPart "a; b".toList = false := by decide
 
 /-! ## FEAT -/
 
@@ -502,17 +643,25 @@ example : WFNt ⟨11, 2, 18, 14, 12, true, some "9276".toList, "logo file.gif".t
 example : WFFact ("Modify".toList, stamp 2020 2 29 23 59 58) where
   k_eq := by decide
   k_semi := by decide
+  k_sp := by decide
   v_semi := by decide
+  v_sp := by decide
   k_strip := ⟨stops_cons _ _ _ (by decide), stops_cons _ _ _ (by decide)⟩
   v_strip := ⟨stops_cons _ _ _ (by decide), stops_cons _ _ _ (by decide)⟩
 
-example : WFName "my dir".toList where
-  ne := by decide
-  semi := by decide
-  eq := by decide
-  slash := by decide
-  strip := ⟨stops_cons _ _ _ (by decide), stops_cons _ _ _ (by decide)⟩
-  dot := by decide
-  dotdot := by decide
+example : WFFact ("type".toList, "OS.unix=slink:/target".toList) where
+  k_eq := by decide
+  k_semi := by decide
+  k_sp := by decide
+  v_semi := by decide
+  v_sp := by decide
+  k_strip := ⟨stops_cons _ _ _ (by decide), stops_cons _ _ _ (by decide)⟩
+  v_strip := ⟨stops_cons _ _ _ (by decide), stops_cons _ _ _ (by decide)⟩
+
+example : WFName " my; dir=1 ".toList ∧ NoEol " my; dir=1 ".toList :=
+  ⟨⟨by decide, by decide, by decide, by decide⟩, stops_cons _ _ _ (by decide)⟩
+
+example : WFName "a\rb\t".toList ∧ NoEol "a\rb\t".toList :=
+  ⟨⟨by decide, by decide, by decide, by decide⟩, stops_cons _ _ _ (by decide)⟩
 
 end Fs.C20
